@@ -1587,6 +1587,9 @@ impl ContinuityStore {
                 Err(_) => break,
             }
 
+            if tail_bytes >= MAX_TAIL_BYTES {
+                break;
+            }
             tail_bytes = (tail_bytes * 2).min(MAX_TAIL_BYTES);
         }
 
@@ -1759,6 +1762,7 @@ impl ContinuityStore {
 
         let mut tail_bytes = INITIAL_TAIL_BYTES;
         let mut scanned_sidecar = false;
+        let mut scan_sufficient = false;
         while tail_bytes <= MAX_TAIL_BYTES {
             #[cfg(feature = "verif")]
             rip_kernel::verif::tick("tail_window");
@@ -1816,6 +1820,7 @@ impl ContinuityStore {
                     }
 
                     if tail.complete || by_key.len() >= MAX_KEYS {
+                        scan_sufficient = true;
                         break;
                     }
                 }
@@ -1823,10 +1828,17 @@ impl ContinuityStore {
                 Err(_) => break,
             }
 
+            if tail_bytes >= MAX_TAIL_BYTES {
+                break;
+            }
             tail_bytes = (tail_bytes * 2).min(MAX_TAIL_BYTES);
         }
 
-        if !scanned_sidecar {
+        // The bounded tail is only an answer when it reached the start of the thread (or filled
+        // the key budget); otherwise older cursors may be missing and truth decides.
+        if !scanned_sidecar || !scan_sufficient {
+            active = None;
+            by_key.clear();
             let events = self
                 .replay_events(thread_id)
                 .map_err(|err| format!("continuity replay failed: {err}"))?;
@@ -1976,6 +1988,9 @@ impl ContinuityStore {
                 Ok(None) => break,
                 Err(_) => break,
             }
+            if tail_bytes >= MAX_TAIL_BYTES {
+                break;
+            }
             tail_bytes = (tail_bytes * 2).min(MAX_TAIL_BYTES);
         }
 
@@ -2069,6 +2084,8 @@ impl ContinuityStore {
             {
                 Ok(Some(tail)) => {
                     scanned_sidecar = true;
+                    // Every window is scanned again from the tail; keep only this window's hits.
+                    decisions.clear();
                     for event in tail.events.iter().rev() {
                         let EventKind::ContinuityContextSelectionDecided {
                             run_session_id,
@@ -2147,6 +2164,9 @@ impl ContinuityStore {
                 Err(_) => break,
             }
 
+            if tail_bytes >= MAX_TAIL_BYTES {
+                break;
+            }
             tail_bytes = (tail_bytes * 2).min(MAX_TAIL_BYTES);
         }
 
